@@ -22,8 +22,8 @@ PANICKING_CALLS = [
     (re.compile(r"::unwrap$|::expect$|::unwrap_err$|::expect_err$"), "unwrap"),
     (re.compile(r"ops::Index::index$|ops::IndexMut::index_mut$"), "index"),
     (re.compile(r"copy_from_slice$|::split_at$|::split_at_mut$|clone_from_slice$"), "slice-op"),
-    (re.compile(r"^core::panicking::|begin_panic|panic_fmt|assert_failed"), "panic"),
-    (re.compile(r"core::num::<impl \w+>::next_power_of_two$"), "npow2"),
+    (re.compile(r"^(core|std)::panicking::|begin_panic|panic_fmt|assert_failed"), "panic"),
+    (re.compile(r"(core|std)::num::<impl \w+>::next_power_of_two$"), "npow2"),
 ]
 
 
